@@ -322,30 +322,33 @@ package ro
 //@   const bufferSize
 
 //@ func (*unicastSubjectImpl).NextWithContext
-//@   props C01 C02 C10 C13
+//@   props C01 C02 C10 C13 C06
 //@   binds s ctx value
 //@   ensures [one-critical-section|C10,C13] count(lock.mu) == 1
 //@   requires s.bufferSize >= -1
 //@   track observer.* hook.* call.NewNotification*
 //@   ensures [open-with-subscriber-delivers|C01,C10] atlock(status) == 0 && atlock(observer) != nil ==> trace(observer.NextWithContext(ctx, value)) && len(atunlock(values)) == len(atlock(values))
+//@   ensures [delivers-outside-the-subject-lock-so-the-observer-may-unsubscribe-from-its-callback|C06,C10] notheldat(mu, observer.NextWithContext)
 //@   ensures [open-without-subscriber-queues|C10] atlock(status) == 0 && atlock(observer) == nil && (s.bufferSize == -1 || len(atlock(values)) + 1 <= s.bufferSize) ==> trace() && len(atunlock(values)) == len(atlock(values)) + 1 && atunlock(values)[len(atlock(values))].A == ctx && atunlock(values)[len(atlock(values))].B == value && forall(j, 0, len(atlock(values)), atunlock(values)[j] == atlock(values)[j])
 //@   ensures [open-without-subscriber-keeps-last-n|C10] atlock(status) == 0 && atlock(observer) == nil && s.bufferSize != -1 && s.bufferSize >= 1 && len(atlock(values)) + 1 > s.bufferSize ==> len(atunlock(values)) == s.bufferSize && atunlock(values)[s.bufferSize - 1].A == ctx && atunlock(values)[s.bufferSize - 1].B == value
 //@   ensures [closed-drops|C01,C10] atlock(status) != 0 ==> trace(call.NewNotificationNext(value), hook.OnDroppedNotification(ctx, _))
 //@   ensures [status-unchanged|C10] atunlock(status) == atlock(status)
 
 //@ func (*unicastSubjectImpl).ErrorWithContext
-//@   props C01 C02 C10 C13
+//@   props C01 C02 C10 C13 C06
 //@   binds ctx err
 //@   ensures [one-critical-section|C10,C13] count(lock.mu) == 1
+//@   ensures [delivers-outside-the-subject-lock|C06,C10] notheldat(mu, observer.ErrorWithContext)
 //@   track observer.* hook.* call.NewNotification*
 //@   ensures [open-stores-error|C01,C10] atlock(status) == 0 ==> atunlock(status) == 1 && atunlock(err).A == ctx && atunlock(err).B == err && atunlock(observer) == nil
 //@   ensures [open-with-subscriber-delivers|C01,C10] atlock(status) == 0 && atlock(observer) != nil ==> trace(observer.ErrorWithContext(ctx, err))
 //@   ensures [closed-drops|C01,C10] atlock(status) != 0 ==> trace(call.NewNotificationError(err), hook.OnDroppedNotification(ctx, _))
 
 //@ func (*unicastSubjectImpl).CompleteWithContext
-//@   props C01 C02 C10 C13
+//@   props C01 C02 C10 C13 C06
 //@   binds ctx
 //@   ensures [one-critical-section|C10,C13] count(lock.mu) == 1
+//@   ensures [delivers-outside-the-subject-lock|C06,C10] notheldat(mu, observer.CompleteWithContext)
 //@   track observer.* hook.* call.NewNotification*
 //@   ensures [open-stores-completion|C01,C10] atlock(status) == 0 ==> atunlock(status) == 2 && atunlock(observer) == nil
 //@   ensures [open-with-subscriber-delivers|C01,C10] atlock(status) == 0 && atlock(observer) != nil ==> trace(observer.CompleteWithContext(ctx))
